@@ -743,6 +743,11 @@ func (root *Root) resolveReflect(
 	field *Field,
 	t Type) (value interface{}, ea []error) {
 
+	if obj == nil {
+		// There is neither a resolver nor a Go value to look the field up on.
+		ea = append(ea, resWarn(field.line, field.col, "no object to resolve %s on", field.Name))
+		return
+	}
 	ov := reflect.ValueOf(obj)
 	var fd *FieldDef
 	var err error
